@@ -33,6 +33,9 @@ enum Form {
     P,
     W,
     DF,
+    /// evaluation history on one expression: parse_wo_compile, eval_vec once, compile(), then
+    /// the comparison
+    WC,
     /// derived expression whose variable list has a name that does not occur: (a*0) + T
     UnusedFirst,
     /// the same with a name that sorts last: (w*0) + T
@@ -43,6 +46,13 @@ fn build(form: Form, text: &str) -> Result<SFlat, String> {
     match form {
         Form::P => SFlat::parse(text).map_err(|e| e.msg().to_string()),
         Form::W => SFlat::parse_wo_compile(text).map_err(|e| e.msg().to_string()),
+        Form::WC => {
+            let mut f = SFlat::parse_wo_compile(text).map_err(|e| e.msg().to_string())?;
+            let n = f.var_names().len();
+            let _ = f.eval_vec(var_syms(n));
+            f.compile();
+            Ok(f)
+        }
         Form::DF => {
             let d = SDeep::parse(text).map_err(|e| e.msg().to_string())?;
             SFlat::from_deepex(d).map_err(|e| e.msg().to_string())
@@ -68,7 +78,7 @@ fn check_text(text: &str, tree: &Tree, t: &Table, acc: &mut Acc) {
     }
     let base_vars = vars.clone();
     let base_expect = expect.clone();
-    for form in [Form::P, Form::W, Form::DF, Form::UnusedFirst, Form::UnusedLast] {
+    for form in [Form::P, Form::W, Form::WC, Form::DF, Form::UnusedFirst, Form::UnusedLast] {
         // the derived forms carry one more (unused) variable
         let (vars, n, expect) = match form {
             Form::UnusedFirst | Form::UnusedLast => {
@@ -167,7 +177,7 @@ pub fn replay(case: &serde_json::Value) -> i32 {
 
 pub fn run(tier: Tier) -> i32 {
     let mut rep = Report::new("C15", tier);
-    rep.rule = "all operand sequences over {x,y,z,literal} up to the length bound as chains under three operator patterns with an optional unary operator on any operand, and all trees of the listed sizes over the same leaves; folded, unfolded and deep-derived flat expressions; eval_vec / eval_iter vs eval on a clone-counting, default-detecting data type; distinct = distinct texts; non-trivial = some variable occurs more than once".into();
+    rep.rule = "all operand sequences over {x,y,z,literal} up to the length bound as chains under three operator patterns with an optional unary operator on any operand, and all trees of the listed sizes over the same leaves; texts with 16..200 distinct variables and repeated variables at distinguished positions; folded, unfolded and deep-derived flat expressions; eval_vec / eval_iter vs eval on a clone-counting, default-detecting data type; distinct = distinct texts; non-trivial = some variable occurs more than once".into();
     rep.assumptions = vec!["clones are counted in the data type's Clone impl, per variable value".into()];
     let t = table();
     let max_len = if tier.thorough() { 9 } else { 7 };
@@ -248,5 +258,49 @@ pub fn run(tier: Tier) -> i32 {
         rep.absorb(a);
     }
     rep.bounds.push(format!("all {} trees of sizes {sizes:?}: complete", space.total));
+    // many variables (beyond the inline capacities 16 / 32 and one machine word of 64): every
+    // variable once, then every ordered pair (a, b) of distinguished positions repeated:
+    // v0 + v1 + ... + v(n-1) + va * vb - va
+    let mut big: Vec<String> = Vec::new();
+    let ns: &[usize] = if tier.thorough() { &[15, 16, 17, 31, 32, 33, 63, 64, 65, 66, 70, 127, 128, 129, 130, 200] } else { &[16, 17, 33, 64, 65, 66, 70, 130] };
+    for &n in ns {
+        let name = |i: usize| format!("v{i:03}");
+        let mut marks: Vec<usize> = [0usize, 1, 15, 16, 17, 31, 32, 33, 62, 63, 64, 65, 66, 127, 128, 129].iter().copied().filter(|m| *m < n).collect();
+        marks.push(n - 1);
+        marks.push(n / 2);
+        marks.sort();
+        marks.dedup();
+        let chain: String = (0..n).map(name).collect::<Vec<_>>().join("+");
+        for &a in &marks {
+            for &b in &marks {
+                big.push(format!("{chain}+{}*{}-{}", name(a), name(b), name(a)));
+                if tier.thorough() {
+                    big.push(format!("{}*{}-{chain}/{}", name(b), name(a), name(a)));
+                }
+            }
+        }
+    }
+    let accs = par_ranges(
+        big.len() as u64,
+        1,
+        || {
+            install_panic_hook();
+            set_table(&t);
+        },
+        |st, en, acc| {
+            for i in st..en {
+                let text = &big[i as usize];
+                let SpecResult::Ok(tree) = spec::read(text, &t, LitKind::Sym) else {
+                    println!("MACHINERY-FAILURE property=C15 many-variables text not well-formed");
+                    std::process::exit(2)
+                };
+                check_text(text, &tree, &t, acc);
+            }
+        },
+    );
+    for a in accs {
+        rep.absorb(a);
+    }
+    rep.bounds.push(format!("many variables: {} texts with n in {ns:?} distinct variables and every ordered pair of distinguished positions (0, 1, 15..17, 31..33, 62..66, 127..129, n/2, n-1) repeated: complete", big.len()));
     rep.finish()
 }
